@@ -408,8 +408,28 @@ fn op_genc<T: Elem>(c: &mut Ctx, complex: bool, n: usize, payload: &[u8]) -> (St
     (format!("{} {}", c.idx, hex(&body)), true)
 }
 
+/// What a bulk decoder of element type `T` may accept at all: a body opening with the typed-array
+/// (or complex-array) header that names `T`, or exactly serde's empty vector `05 00`, read as empty.
+/// Anything else that is accepted has been reinterpreted.
+fn accepted_form_ok<T: Elem>(complex: bool, body: &[u8], n: usize) -> bool {
+    if body == [0x05, 0x00] {
+        return n == 0;
+    }
+    let tag = (T::BYTE_CODE << 5) | (T::CLASS << 3);
+    if complex {
+        body.len() >= 2 && body[0] == 0x1E && (body[1] & 0xF9) == (tag | 1)
+    } else {
+        body.first() == Some(&(tag | 4))
+    }
+}
+
 fn op_dec<T: Elem>(c: &mut Ctx, complex: bool, fmt: u16, body: &[u8]) -> (String, bool) {
     let r = if complex { dec_complex::<T>(fmt, body) } else { dec_typed::<T>(fmt, body) };
+    if let Ok(Ok((n, _))) = &r {
+        if !accepted_form_ok::<T>(complex, body, *n) {
+            c.fail("numeric.dec.reinterpreted", format!("a body opening {} that is neither an array of the element type nor the empty vector decoded to {} elements", hex(&body[..body.len().min(4)]), n));
+        }
+    }
     if r.is_err() {
         c.fail("numeric.dec.panic", "bulk decoder panicked".into());
     }
@@ -602,8 +622,13 @@ fn op_ref<T: Elem>(c: &mut Ctx, cls: u8, code: u8, fmt: u16, mis: usize, qlen: u
                 if *k != cnt || p[..] != body[d..d + cnt * T::W] {
                     c.fail("numeric.ref.elements_differ", "handler saw other elements than the DATA block".into());
                 }
-            } else if borrowed {
-                c.fail("numeric.ref.borrowed_non_aligned_form", "a body that is not an aligned array was borrowed".into());
+            } else {
+                if borrowed {
+                    c.fail("numeric.ref.borrowed_non_aligned_form", "a body that is not an aligned array was borrowed".into());
+                }
+                if body.first() != Some(&0x5C) && !accepted_form_ok::<T>(false, body, *k) {
+                    c.fail("numeric.ref.reinterpreted", format!("a body opening {} that is neither an array of the element type nor the empty vector was served as {} elements", hex(&body[..body.len().min(4)]), k));
+                }
             }
             match dec_typed::<T>(1, resp_body) {
                 Ok(Ok((k2, p2))) if k2 == *k && p2 == *p => {}
@@ -646,6 +671,9 @@ fn op_slice<T: Elem>(c: &mut Ctx, fmt: u16, qlen: usize, body: &[u8]) -> (String
         HOut::Called { resp_body, seen: (k, p), .. } => {
             if fmt != 1 {
                 c.fail("numeric.slice.wrong_format_served", format!("body format {} was served", fmt));
+            }
+            if !accepted_form_ok::<T>(false, body, *k) {
+                c.fail("numeric.slice.reinterpreted", format!("a body opening {} that is neither an array of the element type nor the empty vector was served as {} elements", hex(&body[..body.len().min(4)]), k));
             }
             match dec_typed::<T>(1, resp_body) {
                 Ok(Ok((k2, p2))) if k2 == *k && p2 == *p => {}
@@ -764,6 +792,51 @@ fn op_stream<T: Elem>(c: &mut Ctx, complex: bool, id: u64, notify: bool, ec: u32
     if streamed != buffered || written != buffered || wire != buffered {
         c.fail(&format!("numeric.{}.streaming_ne_buffered", k), format!("streamed {} bytes, buffered {} bytes; write_message equal: {}, into_wire_bytes equal: {}", streamed.len(), buffered.len(), written == buffered, wire == buffered));
     }
+    // the same writers into sinks that take only a few bytes per call (plain and gathering), and the
+    // core `write_message_streaming` with the body written by the caller
+    for max in short_limits(q.len()) {
+        for gather in [false, true] {
+            let run = |typed: bool| -> Result<Vec<u8>, ()> {
+                macro_rules! go {
+                    ($sink:expr) => {{
+                        let mut sw = $sink;
+                        let r = catch(|| {
+                            if !typed {
+                                let body = &built.body;
+                                let mut hh = h;
+                                hh.body_format = 1;
+                                repe::write_message_streaming(&mut sw, hh, q, body.len() as u64, |w| std::io::Write::write_all(w, body))
+                            } else if complex {
+                                repe::write_message_complex_slice(&mut sw, h, q, &cvec_of::<T>(payload))
+                            } else {
+                                repe::write_message_typed_slice(&mut sw, h, q, &vec_of::<T>(payload))
+                            }
+                        });
+                        match r {
+                            Ok(Ok(())) => Ok(sw.out),
+                            _ => Err(()),
+                        }
+                    }};
+                }
+                if gather { go!(ShortGather { out: Vec::new(), max }) } else { go!(ShortWriter { out: Vec::new(), max }) }
+            };
+            for typed in [true, false] {
+                let got = run(typed);
+                if got.as_ref().ok() != Some(&buffered) {
+                    let what = if typed { k } else { "write_message_streaming" };
+                    let sink = if gather { "gathering sink" } else { "write-only sink" };
+                    let detail = match &got {
+                        Ok(g) => {
+                            let at = g.iter().zip(buffered.iter()).position(|(a, b)| a != b).unwrap_or(g.len().min(buffered.len()));
+                            format!("{} into a {} taking {} bytes per call: {} bytes written, builder frame {} bytes, first difference at byte {} (query {} bytes)", what, sink, max, g.len(), buffered.len(), at, q.len())
+                        }
+                        Err(()) => format!("{} into a {} taking {} bytes per call failed", what, sink, max),
+                    };
+                    c.fail(&format!("numeric.{}.short_sink_ne_buffered", k), detail);
+                }
+            }
+        }
+    }
     match Message::from_slice_exact(&streamed) {
         Ok(m) => {
             let back = if complex { dec_complex::<T>(m.header.body_format, &m.body) } else { dec_typed::<T>(m.header.body_format, &m.body) };
@@ -774,6 +847,65 @@ fn op_stream<T: Elem>(c: &mut Ctx, complex: bool, id: u64, notify: bool, ec: u32
         Err(e) => c.fail(&format!("numeric.{}.frame_inconsistent", k), format!("streamed frame does not parse: {}", cls_of(&e))),
     }
     (format!("{} {}", c.idx, hex(&streamed)), true)
+}
+
+/// A sink that implements only `write` + `flush` (so `write_vectored` is std's default: the first
+/// non-empty buffer) and accepts at most `max` bytes per call.
+struct ShortWriter {
+    out: Vec<u8>,
+    max: usize,
+}
+impl std::io::Write for ShortWriter {
+    fn write(&mut self, buf: &[u8]) -> std::io::Result<usize> {
+        let n = buf.len().min(self.max.max(1));
+        self.out.extend_from_slice(&buf[..n]);
+        Ok(n)
+    }
+    fn flush(&mut self) -> std::io::Result<()> {
+        Ok(())
+    }
+}
+/// A gathering sink: `write_vectored` takes bytes across the buffers, at most `max` per call.
+struct ShortGather {
+    out: Vec<u8>,
+    max: usize,
+}
+impl std::io::Write for ShortGather {
+    fn write(&mut self, buf: &[u8]) -> std::io::Result<usize> {
+        let n = buf.len().min(self.max.max(1));
+        self.out.extend_from_slice(&buf[..n]);
+        Ok(n)
+    }
+    fn write_vectored(&mut self, bufs: &[std::io::IoSlice<'_>]) -> std::io::Result<usize> {
+        let mut left = self.max.max(1);
+        let mut n = 0;
+        for b in bufs {
+            let k = b.len().min(left);
+            self.out.extend_from_slice(&b[..k]);
+            n += k;
+            left -= k;
+            if left == 0 {
+                break;
+            }
+        }
+        Ok(n)
+    }
+    fn flush(&mut self) -> std::io::Result<()> {
+        Ok(())
+    }
+}
+
+/// Per-call limits of the short-write sinks for a query of `q` bytes: around the header end, around
+/// the end of the query, tiny and large.
+fn short_limits(q: usize) -> Vec<usize> {
+    let mut v = vec![1, 2, 7, 47, 48, 49, 48 + q, 48 + q + 1, 1000];
+    if q > 0 {
+        v.push(48 + q - 1);
+        v.push(48 + q / 2);
+    }
+    v.sort();
+    v.dedup();
+    v
 }
 
 // ------------------------------------------------------------------------------------------
@@ -1460,6 +1592,23 @@ fn generate(seed: u64, thorough: bool) -> Vec<String> {
         }
     }
 
+    // generic (untyped) arrays that are not the empty vector: counts whose compressed SIZE has a zero
+    // first-byte value (64, 128, 16384, 2^30), a non-canonical zero, trailing bytes after `05 00`
+    for (cls, code, _) in [(0u8, 3u8, 8usize), (2, 0, 1), (1, 2, 4)] {
+        for body in [&[0x05u8, 0x01, 0x01][..], &[0x05, 0x01, 0x02], &[0x05, 0x02, 0x00, 0x01, 0x00], &[0x05, 0x03, 0, 0, 0, 1, 0, 0, 0],
+                     &[0x05, 0x01, 0x00], &[0x05, 0x00, 0x00], &[0x05, 0x04, 0x61], &[0x05]] {
+            let mut b = body.to_vec();
+            let extra = g.r.below(40) as usize;
+            b.extend_from_slice(&g.r.bytes(extra));
+            for bb in [body.to_vec(), b] {
+                push!(g, "dec", "{} {} 1 {}", cls, code, hex(&bb));
+                push!(g, "cdec", "{} {} 1 {}", cls, code, hex(&bb));
+                push!(g, "slice", "{} {} 1 3 {}", cls, code, hex(&bb));
+                push!(g, "ref", "{} {} 1 {} 3 {}", cls, code, g.r.below(8), hex(&bb));
+            }
+        }
+    }
+
     // ---- 4. wrong element type / wrong format ----------------------------------------------------
     for (cls, code, _) in TYPES {
         for (c2, k2, w2) in TYPES {
@@ -1499,6 +1648,16 @@ fn generate(seed: u64, thorough: bool) -> Vec<String> {
         let n = 16384usize;
         let p = gen_payload(&mut g.r, 0, 3, 8, n, 1);
         push!(g, "stream", "0 3 1 0 0 1 {} {} {}", hex(b"/big"), n, hex(&p));
+    }
+    // every query length 0..64 (element type rotating), each run also into the short-write sinks
+    let phase = g.r.below(12) as usize;
+    for qlen in 0..=64usize {
+        let (cls, code, w) = TYPES[(qlen + phase) % 12];
+        let complex = qlen % 5 == 4;
+        let n = g.r.below(6) as usize;
+        let p = gen_payload(&mut g.r, cls, code, w, n, if complex { 2 } else { 1 });
+        let q = g.r.bytes(qlen);
+        push!(g, if complex { "cstream" } else { "stream" }, "{} {} {} {} 0 1 {} {} {}", cls, code, g.r.boundary(64), g.r.below(2), hex(&q), n, hex(&p));
     }
 
     // ---- 6. real servers, bulk / aligned / serde clients -------------------------------------------------
@@ -1574,7 +1733,7 @@ fn main() {
     let args = Args::parse();
     quiet_panics();
     let mut out = Out::new(&args.out);
-    out.rule = "element types bf16,f16,f32,f64,i8..i64,u8..u64 as raw little-endian blocks (NaN payloads quiet/signalling, ±inf, ±0, subnormals, min/max, random bits); vectors of every length 0..70 (thorough: 0..4096) plus 127..4096 boundaries, 2^14±1 and (thorough) one 2^20; complex pairs; three-way comparison bulk body / serde body / model, both decoders on both bodies incl. the empty vector; aligned form behind every query length 0..64 for every type and SIZE width, the frame copied to every base misalignment 0..7 of a Vec<u64> and served by the with_typed_slice_ref handler (pointer-range test: borrowed iff payload address aligned); regular / generic / aligned-for-another-offset / corrupted bodies and every first byte through both bulk routes (view and owned); every ordered pair of distinct element types in regular, aligned and complex form; wrong body formats; streaming writers vs buffered builders; real Server and AsyncServer with bulk, aligned and serde clients (blocking and async); the raw request frame every client helper writes, captured by a stand-in peer for every element type and path length 0..16 (+ longer), compared with the MessageBuilder frame and served by the borrowing route at base misalignments 0..7. Distinct by op line; non-trivial = the decoder / route / call accepted and returned elements (encoders: non-empty vector)".into();
+    out.rule = "element types bf16,f16,f32,f64,i8..i64,u8..u64 as raw little-endian blocks (NaN payloads quiet/signalling, ±inf, ±0, subnormals, min/max, random bits); vectors of every length 0..70 (thorough: 0..4096) plus 127..4096 boundaries, 2^14±1 and (thorough) one 2^20; complex pairs; three-way comparison bulk body / serde body / model, both decoders on both bodies incl. the empty vector; aligned form behind every query length 0..64 for every type and SIZE width, the frame copied to every base misalignment 0..7 of a Vec<u64> and served by the with_typed_slice_ref handler (pointer-range test: borrowed iff payload address aligned); regular / generic / aligned-for-another-offset / corrupted bodies and every first byte through both bulk routes (view and owned); every ordered pair of distinct element types in regular, aligned and complex form; wrong body formats; streaming writers (typed, complex and write_message_streaming itself; Vec sink and write-only / gathering sinks taking 1..1000 bytes per call, limits around the header end and the query end, every query length 0..64) vs buffered builders; real Server and AsyncServer with bulk, aligned and serde clients (blocking and async); the raw request frame every client helper writes, captured by a stand-in peer for every element type and path length 0..16 (+ longer), compared with the MessageBuilder frame and served by the borrowing route at base misalignments 0..7. Distinct by op line; non-trivial = the decoder / route / call accepted and returned elements (encoders: non-empty vector)".into();
     let ops = match args.replay_ops() {
         Some(o) => o,
         // `--release-shape` (the optimised-build run of the thorough tier): the quick-sized mix, other seed
